@@ -198,6 +198,13 @@ func runC03(r *rep.R) {
 	for _, oi := range []int{opGetDeviceID, opPowerReading, c03Ops[20], opSensorReading} {
 		histConform(r, "C03", histCfg{Suite: suites[0], InSession: true, Ops: []int{oi, opClose}, Horizon: 2, Alphabet: "retry"}, 1, &idx)
 	}
+	// a session of more than 2^16 commands (initialisation vectors, counters)
+	vlong := make([]int, 0, 66001)
+	for i := 0; i < 66000; i++ {
+		vlong = append(vlong, []int{opGetDeviceID, opSystemGUID, opChassisControl, c03Ops[3]}[i%4])
+	}
+	histExploreWith(r, "C03", histCfg{Suite: suites[0], InSession: true, Ops: append(vlong, opClose), Horizon: 1, Alphabet: "retry"}, 0, &idx, judge)
+	r.Bound("longest_session_commands", 66000)
 	r.Bound("long_session_commands", len(long))
 	r.Bound("suites", len(suites))
 	r.Bound("command_variants", len(c03Ops))
@@ -207,7 +214,7 @@ func runC03(r *rep.R) {
 
 // histExploreWith is histExplore with a caller-supplied oracle.
 func histExploreWith(r *rep.R, prop string, cfg histCfg, bound int, idx *int64, judge func(histCfg, *histObs) []finding) {
-	tag := fmt.Sprintf("%s/%v/%v/%v/%s/%d/%s/%v/%v/%v", prop, cfg.Suite, cfg.InSession, cfg.Ops, cfg.Alphabet, cfg.Horizon, cfg.HSAlphabet, cfg.Discover, cfg.MenuOps, cfg.Prior)
+	tag := fmt.Sprintf("%s/%v/%v/%v/%s/%d/%s/%v/%v/%v/%x/%x", prop, cfg.Suite, cfg.InSession, cfg.Ops, cfg.Alphabet, cfg.Horizon, cfg.HSAlphabet, cfg.Discover, cfg.MenuOps, cfg.Prior, cfg.BMCSID, cfg.BMCOutSeq)
 	e := &env.Explorer{R: r, Bound: bound, Scenario: tag, Idx: idx,
 		Run: func(ch *env.Chooser) any { return runHistory(cfg, ch) },
 	}
